@@ -153,11 +153,35 @@ func encodingMonitor(c *Ctx) []Violation {
 	var vs []Violation
 	ops := c.Ops()
 	base := wiringText(c.Run, c.Step, leavesLookup(c.Run))
+	// A rejected registration leaves the state as it was, so the search never
+	// continues a history past one; what a rejected registration leaves behind
+	// may depend on the encoding all the same. After a rejected Provide or
+	// Decorate every Invoke of the alphabet is therefore tried as a
+	// continuation, in the original and in every rewritten history.
+	var probes []Op
+	var probeBase []string
+	if k := c.Step.Op.Kind; (k == h.OpProvide || k == h.OpDecorate) && !c.Step.V.OK && !c.Step.V.Escaped {
+		for _, a := range c.Sc.Alphabet {
+			if a.Kind == h.OpInvoke {
+				probes = append(probes, a)
+				r := h.Replay(c.Sc.Cfg, c.Sc.Plans, append(append(append([]Op{}, c.Sc.Prefix...), ops...), a))
+				probeBase = append(probeBase, wiringText(r, r.Steps[len(r.Steps)-1], leavesLookup(r)))
+			}
+		}
+	}
 	try := func(variant []Op, what string) {
 		full := append(append([]Op{}, c.Sc.Prefix...), variant...)
 		r := h.Replay(c.Sc.Cfg, c.Sc.Plans, full)
 		got := wiringText(r, r.Steps[len(r.Steps)-1], leavesLookup(r))
 		c.Hit("encodings_compared")
+		for i, p := range probes {
+			rp := h.Replay(c.Sc.Cfg, c.Sc.Plans, append(append([]Op{}, full...), p))
+			c.Hit("continuations_after_rejection_compared")
+			if gp := wiringText(rp, rp.Steps[len(rp.Steps)-1], leavesLookup(rp)); gp != probeBase[i] {
+				vs = append(vs, Violation{Rule: "C15/encoding-changes-behaviour", Detail: fmt.Sprintf("%s: after the rejected %s, %s observes %q with the rewritten signature but %q originally", what, c.Step.Op, p, clip(gp), clip(probeBase[i]))})
+				return
+			}
+		}
 		if got != base {
 			vs = append(vs, Violation{Rule: "C15/encoding-changes-behaviour", Detail: fmt.Sprintf("%s: last op %s observes %q with the rewritten signature but %q originally", what, c.Step.Op, clip(got), clip(base))})
 		}
@@ -239,6 +263,10 @@ func c15Units(tier string) []Unit {
 	add("failing-first-parameter", h.Config{}, alpha{scopes: sc, ctors: []*uFunc{pA, pAd, pBd, pCb}, invokes: []*uFunc{iBA, iCA}})
 	add("two-groups-in-one-object", h.Config{}, alpha{scopes: sc, ctors: []*uFunc{pGG, fAgC, fH}, invokes: []*uFunc{iC}})
 	add("same-type-two-names-cycles", h.Config{}, alpha{scopes: sc, ctors: []*uFunc{pA, pBaa, rAnB, pAn}, invokes: []*uFunc{iB}})
+	// a multi-key decorator rejected because a later one of its keys is
+	// already decorated: nothing of it stays, in any encoding of its results
+	units = append(units, Unit{Sc: &Scenario{Name: "decorator-conflicts", Prefix: prefixChild, Alphabet: alpha{scopes: sc, ctors: []*uFunc{pA, pB}, decos: []*uFunc{dBonly, dAB}, invokes: []*uFunc{iA, iB}}.ops(),
+		Depth: 5, Budget: explore.Budget{Provides: 2, Decorates: 2, Invokes: 1, Rejected: 1}, Monitors: []explore.Monitor{encodingMonitor}}})
 	if !q {
 		add("defer/positional", h.Config{Defer: true}, alpha{scopes: sc, ctors: []*uFunc{pA, pB, pC, rAB}, export: true, decos: []*uFunc{dA}, invokes: []*uFunc{iA, iC}})
 	}
@@ -250,6 +278,8 @@ var (
 	pABn = u.F("pABn", "", "A,B", u.Name("n"))  // the Name option applies to every result
 	pABg = u.F("pABg", "", "A,B", u.Group("g")) // and so does Group
 )
+
+var dBonly = u.F("dBonly", "B", "B")
 
 var (
 	pBd = u.F("pBd", "D", "B") // B whose dependency D nobody provides
